@@ -6,8 +6,9 @@ inside the array that are not lower than their neighbours, and every strict loca
 """
 import z3
 
-from pyvc.core import I, R, B, NONE, Tup, DictV, FuncV, ARef, Undecided
-from pyvc.contract import Contract, FunctionTask, sym_arr1
+from pyvc.core import I, R, B, NONE, Tup, DictV, FuncV, ARef, Undecided, OptV, ModV
+from pyvc.contract import Contract, FunctionTask, sym_arr1, sym_obj
+from pyvc.core import A2, ArrData
 from pyvc import npmodel as npm
 
 m = z3.Int("m")
@@ -71,11 +72,15 @@ def find_peaks_model(ex, st, args, kw, node):
     return Tup((ref, DictV({})))
 
 
+def _kwargs_value(kind):
+    return {"None": NONE, "empty": DictV({}), "dict": DictV({"prominence": z3.Real("prominence")})}[kind]
+
+
 def _fpu_inputs(with_kwargs):
     def mk(ex, st):
         st.env["frequency"] = sym_arr1(ex, st, "frequency", m)
         st.env["amplitude"] = sym_arr1(ex, st, "amplitude", m)
-        st.env["find_peaks_kwargs"] = DictV({"prominence": z3.Real("prominence")}) if with_kwargs else NONE
+        st.env["find_peaks_kwargs"] = _kwargs_value(with_kwargs)
         st.env["m"] = m
         return [m >= 0]
     return mk
@@ -100,6 +105,13 @@ PARAM_LEVEL = [
 ]
 
 
+# what holds whatever filters scipy is given: both absent or both present, and then frequency and amplitude of one interior sample
+PARAM_WEAK = [
+    "(result[0] is None) == (result[1] is None)",
+    "implies(not (result[0] is None), exists(p, 1, len(amplitude) - 1, result[0] == frequency[p] and result[1] == amplitude[p]))",
+]
+
+
 def _fpu_contract(with_kwargs):
     # the candidate set is the array returned by find_peaks on this path; the ghost name `potential_peak_indices` is the
     # function's own local (the postcondition talks about scipy's answer, not about an incidental temporary: if the local is
@@ -108,7 +120,8 @@ def _fpu_contract(with_kwargs):
            "implies(len(potential_peak_indices) > 0, exists(t, 0, len(potential_peak_indices), "
            "result[0] == frequency[potential_peak_indices[t]] and result[1] == amplitude[potential_peak_indices[t]] and "
            "forall(u, 0, len(potential_peak_indices), amplitude[potential_peak_indices[u]] <= amplitude[potential_peak_indices[t]])))"]
-    if not with_kwargs:
+    ens = ens + PARAM_WEAK
+    if with_kwargs != "dict":
         ens = ens + PARAM_LEVEL
     return Contract(qual="hvsrpy.hvsr_curve.HvsrCurve._find_peak_unbounded", params=["frequency", "amplitude", "find_peaks_kwargs"],
                     defaults={"find_peaks_kwargs": None}, requires=[], ensures=ens, make_inputs=_fpu_inputs(with_kwargs), modifies=[])
@@ -120,18 +133,309 @@ TASKS = []
 for (lo_none, hi_none), c in SR:
     TASKS.append(FunctionTask(c, label=f"hvsrpy.hvsr_curve.HvsrCurve._search_range_to_index_range[f_low={'None' if lo_none else 'x'},f_high={'None' if hi_none else 'y'}]",
                               clauses=["range -> inclusive index range of nearest samples"]))
-for wk in (False, True):
+for wk in ("None", "empty", "dict"):
     TASKS.append(FunctionTask(_fpu_contract(wk), module_env={"find_peaks": FIND_PEAKS},
-                              label=f"hvsrpy.hvsr_curve.HvsrCurve._find_peak_unbounded[kwargs={'dict' if wk else 'None'}]",
+                              label=f"hvsrpy.hvsr_curve.HvsrCurve._find_peak_unbounded[kwargs={wk}]",
                               clauses=["highest candidate, amplitude taken at the reported frequency's index"]))
+
+# ---------------------------------------------------------------- _find_peak_bounded: modular (callees by contract)
+NO_FILTERS = FuncV(lambda ex, st, a, k, n_: z3.BoolVal(isinstance(a[0], type(NONE)) or (isinstance(a[0], DictV) and not a[0].items)), "no_filters")
+
+
+def _opt_pair(ex, st, env):
+    c = ex.fresh("no_peak", B)
+    return Tup((OptV(c, ex.fresh("peak_frq", R)), OptV(c, ex.fresh("peak_amp", R))))
+
+
+# caller-visible contracts of the two callees (exactly the parameter-level clauses proved above)
+SR_CALL = Contract(qual="hvsrpy.hvsr_curve.HvsrCurve._search_range_to_index_range", params=["frequency", "search_range_in_hz"],
+                   requires=["len(frequency) >= 1"], ensures=SR_ENSURES, modifies=[],
+                   make_result=lambda ex, st, env: Tup((ex.fresh("lo_idx", I), ex.fresh("hi_idx", I))))
+FPU_CALL = Contract(qual="hvsrpy.hvsr_curve.HvsrCurve._find_peak_unbounded", params=["frequency", "amplitude", "find_peaks_kwargs"],
+                    defaults={"find_peaks_kwargs": None}, requires=["len(frequency) == len(amplitude)"], ghost={"no_filters": NO_FILTERS},
+                    ensures=PARAM_WEAK + [f"implies(no_filters(find_peaks_kwargs), {x})" for x in PARAM_LEVEL], modifies=[], make_result=_opt_pair)
+
+_SLMB = "(amplitude[{q}] > amplitude[{q}-1] and amplitude[{q}] > amplitude[{q}+1])"
+FPB_ENS = [x.replace("result[0]", "f_low_idx").replace("result[1]", "f_high_idx") for x in SR_ENSURES] + [
+    "(result[0] is None) == (result[1] is None)",
+    # present: a sample strictly inside the index range [L, U]
+    "implies(not (result[0] is None), exists(p, f_low_idx + 1, f_high_idx - 1, result[0] == frequency[p] and result[1] == amplitude[p]))",
+]
+# offsets relative to the low index (same statement as over absolute positions f_low_idx+1 .. f_high_idx-2; this form lets the solver match
+# the callee's quantified facts about the slice, which are relative by construction)
+_AT = lambda q: "amplitude[f_low_idx + " + q + "]"
+_SLMR = lambda q: f"({_AT(q)} > amplitude[f_low_idx + {q} - 1] and {_AT(q)} > amplitude[f_low_idx + {q} + 1])"
+FPB_STRONG = [
+    "implies(result[0] is None, forall(i, 1, f_high_idx - f_low_idx - 1, not " + _SLMR("i") + "))",
+    "implies(not (result[0] is None), exists(p, 1, f_high_idx - f_low_idx - 1, result[0] == frequency[f_low_idx + p] and result[1] == " + _AT("p") + " and "
+    + _AT("p") + " >= amplitude[f_low_idx + p - 1] and " + _AT("p") + " >= amplitude[f_low_idx + p + 1] and "
+    "forall(q, 1, f_high_idx - f_low_idx - 1, implies(" + _SLMR("q") + ", " + _AT("q") + " <= " + _AT("p") + "))))",
+]
+
+# the function rebinds its parameters `frequency` and `amplitude` to the result: the postconditions speak about the arguments
+import re
+_old = lambda t: re.sub(r"\b(frequency|amplitude)\b", r"old(\1)", t)
+FPB_ENS, FPB_STRONG = [_old(x) for x in FPB_ENS], [_old(x) for x in FPB_STRONG]
+
+
+# ---- parameter-level form: GL / GU1 are *the* index range of the grid and search range of the task (ghost constants defined by the
+# published rule; they exist for every non-empty grid: first index attaining the minimum distance). Callers rely on this form.
+FQ = z3.Const("frequency", z3.ArraySort(I, R))
+GL, GU1 = z3.Ints("GL GU1")
+_k = z3.Int("k!g")
+
+
+def _nearest_first(idx, x):
+    d = lambda j: z3.If(FQ[j] - x >= 0, FQ[j] - x, x - FQ[j])
+    return [idx >= 0, idx < m, z3.ForAll([_k], z3.Implies(z3.And(_k >= 0, _k < m), d(idx) <= d(_k)), patterns=[FQ[_k]]),
+            z3.ForAll([_k], z3.Implies(z3.And(_k >= 0, _k < idx), d(_k) > d(idx)), patterns=[FQ[_k]])]
+
+
+def _grid_axioms(lo_none, hi_none):
+    return ([GL == 0] if lo_none else _nearest_first(GL, f_low)) + ([GU1 == m] if hi_none else _nearest_first(GU1 - 1, f_high))
+
+
+def _range_value(lo_none, hi_none):
+    return Tup((NONE if lo_none else f_low, NONE if hi_none else f_high))
+
+
+def _is_grid(ex, st, a, k, n_):
+    return z3.And(st.heap[a[0].sid].data == FQ, st.heap[a[0].sid].shape[0] == m)
+
+
+_AG = lambda q: "amplitude[GL + " + q + "]"
+_SLMG = lambda q: f"({_AG(q)} > amplitude[GL + {q} - 1] and {_AG(q)} > amplitude[GL + {q} + 1])"
+FPB_PARAM = [
+    "(result[0] is None) == (result[1] is None)",
+    "implies(not (result[0] is None), exists(p, 1, GU1 - GL - 1, result[0] == frequency[GL + p] and result[1] == " + _AG("p") + "))",
+]
+FPB_PARAM_STRONG = [
+    "implies(result[0] is None, forall(i, 1, GU1 - GL - 1, not " + _SLMG("i") + "))",
+    "implies(not (result[0] is None), exists(p, 1, GU1 - GL - 1, result[0] == frequency[GL + p] and result[1] == " + _AG("p") + " and "
+    + _AG("p") + " >= amplitude[GL + p - 1] and " + _AG("p") + " >= amplitude[GL + p + 1] and "
+    "forall(q, 1, GU1 - GL - 1, implies(" + _SLMG("q") + ", " + _AG("q") + " <= " + _AG("p") + "))))",
+]
+
+
+def fpb_call(lo_none, hi_none):
+    """caller-visible contract of _find_peak_bounded for the task's grid and range"""
+    rng = _range_value(lo_none, hi_none)
+    gh = {"GL": GL, "GU1": GU1, "no_filters": NO_FILTERS, "is_grid": FuncV(_is_grid, "is_grid"),
+          "is_range": FuncV(lambda ex, st, a, k, n_: ex.struct_eq(a[0], rng), "is_range")}
+    return Contract(qual="hvsrpy.hvsr_curve.HvsrCurve._find_peak_bounded", params=["frequency", "amplitude", "search_range_in_hz", "find_peaks_kwargs"],
+                    defaults={"search_range_in_hz": Tup((NONE, NONE)), "find_peaks_kwargs": None}, ghost=gh,
+                    requires=["is_grid(frequency)", "len(amplitude) == len(frequency)", "is_range(search_range_in_hz)"],
+                    ensures=FPB_PARAM + [f"implies(no_filters(find_peaks_kwargs), {x})" for x in FPB_PARAM_STRONG], modifies=[], make_result=_opt_pair)
+
+
+def _fpb_inputs(lo_none, hi_none, kw):
+    def mk(ex, st):
+        st.env["frequency"] = sym_arr1(ex, st, "frequency", m)
+        st.env["amplitude"] = sym_arr1(ex, st, "amplitude", m)
+        st.env["search_range_in_hz"] = Tup((NONE if lo_none else f_low, NONE if hi_none else f_high))
+        st.env["find_peaks_kwargs"] = _kwargs_value(kw)
+        st.env["m"] = m
+        return [m >= 1]
+    return mk
+
+
+HVSRCURVE = ModV("HvsrCurve", {"_search_range_to_index_range": SR_CALL, "_find_peak_unbounded": FPU_CALL})
+for lo_none in (True, False):
+    for hi_none in (True, False):
+        for kw in ("None", "empty", "dict"):
+            c = Contract(qual="hvsrpy.hvsr_curve.HvsrCurve._find_peak_bounded", params=["frequency", "amplitude", "search_range_in_hz", "find_peaks_kwargs"],
+                         requires=["len(frequency) >= 1", "len(frequency) == len(amplitude)"],
+                         ensures=FPB_ENS + [_old(x) for x in FPB_PARAM] + ((FPB_STRONG + [_old(x) for x in FPB_PARAM_STRONG]) if kw != "dict" else []),
+                         make_inputs=_fpb_inputs(lo_none, hi_none, kw), modifies=[], ghost={"GL": GL, "GU1": GU1}, axioms=_grid_axioms(lo_none, hi_none),
+                         notes="highest local maximum strictly inside the index range of the nearest samples; amplitude at the same index")
+            TASKS.append(FunctionTask(c, module_env={"HvsrCurve": HVSRCURVE},
+                                      label=f"hvsrpy.hvsr_curve.HvsrCurve._find_peak_bounded[f_low={'None' if lo_none else 'x'},f_high={'None' if hi_none else 'y'},kwargs={kw}]",
+                                      clauses=["highest local maximum within the range"]))
+
+# ---------------------------------------------------------------- HvsrTraditional.update_peaks_bounded: every window, masks, NaN for absent peaks
+K = z3.Int("K")
+AMP = z3.Const("amplitude_rows", A2(R))
+PF0, PA0 = z3.Const("main_peak_frq_on_entry", z3.ArraySort(I, R)), z3.Const("main_peak_amp_on_entry", z3.ArraySort(I, R))
+VW0, VP0 = z3.Const("valid_window_on_entry", z3.ArraySort(I, B)), z3.Const("valid_peak_on_entry", z3.ArraySort(I, B))
+old_lo, old_hi, prom, prom0 = z3.Reals("stored_f_low stored_f_high prominence stored_prominence")
+_PEAK_ARRAYS = (("_main_peak_frq", PF0, "real"), ("_main_peak_amp", PA0, "real"), ("valid_window_boolean_mask", VW0, "bool"), ("valid_peak_boolean_mask", VP0, "bool"))
+
+
+def _upb_inputs(lo_none, hi_none, kw, fresh_object):
+    def mk(ex, st):
+        fields = {"frequency": ex.alloc_arr(st, (m,), FQ, "real", "param:self.frequency", tag="frequency"),
+                  "amplitude": ex.alloc_arr(st, (K, m), AMP, "real", "param:self.amplitude", tag="amplitude")}
+        for nm, data, elem in _PEAK_ARRAYS:
+            fields[nm] = ex.alloc_arr(st, (K,), data, elem, f"param:self.{nm}", tag=nm)
+        if fresh_object:      # the state __init__ leaves: the first call always computes
+            from pyvc.core import StrV
+            fields["_search_range_in_hz"], fields["_find_peaks_kwargs"] = StrV("default_overwritten_below"), StrV("default_overwritten_below")
+        else:
+            fields["_search_range_in_hz"] = Tup((old_lo, old_hi))
+            fields["_find_peaks_kwargs"] = DictV({}) if kw == "None" else DictV({"prominence": prom0})
+        fields["meta"] = DictV({})
+        st.env["self"] = sym_obj(ex, st, "HvsrTraditional", fields, owner="param:self")
+        st.env["search_range_in_hz"] = _range_value(lo_none, hi_none)
+        st.env["find_peaks_kwargs"] = NONE if kw == "None" else DictV({"prominence": prom})
+        st.env["K"], st.env["m"] = K, m
+        return [K >= 0, m >= 1]
+    return mk
+
+
+def _self_havoc(ex, st, v):
+    for nm, data, elem in _PEAK_ARRAYS:
+        ref = st.heap[v.oid].fields[nm]
+        d = st.heap[ref.sid]
+        st.heap[ref.sid] = ArrData(d.shape, ex.fresh(nm, data.sort()), d.elem, d.owner, d.view_of)
+    return v
+
+
+_VP, _VW, _PF, _PA = "self.valid_peak_boolean_mask", "self.valid_window_boolean_mask", "self._main_peak_frq", "self._main_peak_amp"
+_AR = lambda r, q: f"self.amplitude[{r}, GL + {q}]"
+_SLMT = lambda r, q: f"({_AR(r, q)} > {_AR(r, q + ' - 1')} and {_AR(r, q)} > {_AR(r, q + ' + 1')})"
+
+
+def _row(r, strong):
+    absent = f"isnan({_PF}[{r}]) and isnan({_PA}[{r}])"
+    present = f"{_PF}[{r}] == self.frequency[GL + p] and {_PA}[{r}] == {_AR(r, 'p')}"
+    if strong:
+        absent += f" and forall(i, 1, GU1 - GL - 1, not {_SLMT(r, 'i')})"
+        present += (f" and {_AR(r, 'p')} >= {_AR(r, 'p - 1')} and {_AR(r, 'p')} >= {_AR(r, 'p + 1')} and "
+                    f"forall(q, 1, GU1 - GL - 1, implies({_SLMT(r, 'q')}, {_AR(r, 'q')} <= {_AR(r, 'p')}))")
+    return f"(implies(not {_VP}[{r}], {absent}) and implies({_VP}[{r}], exists(p, 1, GU1 - GL - 1, {present})))"
+
+
+_EARLY = "(old(self._search_range_in_hz) == search_range_in_hz and find_peaks_kwargs == old(self._find_peaks_kwargs))"
+_UNCH = " and ".join(f"forall(r, 0, K, self.{nm}[r] == old(self.{nm}[r]))" for nm, _, _ in _PEAK_ARRAYS)
+
+
+def _upb_contract(lo_none, hi_none, kw, fresh_object):
+    strong = kw == "None"
+    return Contract(
+        qual="hvsrpy.hvsr_traditional.HvsrTraditional.update_peaks_bounded", params=["self", "search_range_in_hz", "find_peaks_kwargs"],
+        ghost={"GL": GL, "GU1": GU1, "isnan": lambda x: x == npm.NAN}, axioms=_grid_axioms(lo_none, hi_none),
+        requires=[], make_inputs=_upb_inputs(lo_none, hi_none, kw, fresh_object), obj_havoc={"self": _self_havoc},
+        ensures=[f"implies(not {_EARLY}, forall(r, 0, K, {_row('r', strong)}))",
+                 f"implies(not {_EARLY}, forall(r, 0, K, {_VW}[r] == ({_VP}[r] or forall(q, 0, K, not {_VP}[q]))))",
+                 f"implies(not {_EARLY}, self._search_range_in_hz == search_range_in_hz)",
+                 f"implies({_EARLY}, {_UNCH})"],
+        loops={0: [f"forall(r, 0, _k0, {_row('r', strong)})", f"forall(r, 0, _k0, {_VW}[r] == {_VP}[r])",
+                   f"all_curves_flat == forall(r, 0, _k0, not {_VP}[r])"]},
+        modifies=["param:self", "param:self._main_peak_frq", "param:self._main_peak_amp", "param:self.valid_window_boolean_mask", "param:self.valid_peak_boolean_mask"],
+        notes="every window: peak = highest local maximum strictly inside the index range, NaN and both masks False when there is none; all windows "
+              "stay accepted when no window has a peak; nothing recomputed when range and filters are the stored ones")
+
+
+for lo_none in (True, False):
+    for hi_none in (True, False):
+        for kw, fresh_object in (("None", False), ("dict", False), ("None", True)):
+            if fresh_object and not (lo_none and hi_none):
+                continue
+            TASKS.append(FunctionTask(_upb_contract(lo_none, hi_none, kw, fresh_object),
+                                      module_env={"HvsrCurve": ModV("HvsrCurve", {"_find_peak_bounded": fpb_call(lo_none, hi_none)})},
+                                      label=f"hvsrpy.hvsr_traditional.HvsrTraditional.update_peaks_bounded[f_low={'None' if lo_none else 'x'},f_high={'None' if hi_none else 'y'},"
+                                            f"kwargs={kw}{',fresh-object' if fresh_object else ''}]",
+                                      clauses=["every window's stored peak is the highest local maximum in the range; masks and NaN for absent peaks"]))
+
+# ---------------------------------------------------------------- HvsrCurve.update_peaks_bounded (one curve) and HvsrTraditional.mean_curve_peak
+AMP1 = z3.Const("amplitude", z3.ArraySort(I, R))
+_A1 = lambda q: f"self.amplitude[GL + {q}]"
+_SLM1 = lambda q: f"({_A1(q)} > {_A1(q + ' - 1')} and {_A1(q)} > {_A1(q + ' + 1')})"
+
+
+def _single(strong, frq, amp, arr=_A1, slm=_SLM1):
+    absent = f"isnan({frq}) and isnan({amp})"
+    present = f"{frq} == self.frequency[GL + p] and {amp} == {arr('p')}"
+    if strong:
+        absent += f" and forall(i, 1, GU1 - GL - 1, not {slm('i')})"
+        present += (f" and {arr('p')} >= {arr('p - 1')} and {arr('p')} >= {arr('p + 1')} and "
+                    f"forall(q, 1, GU1 - GL - 1, implies({slm('q')}, {arr('q')} <= {arr('p')}))")
+    return absent, f"exists(p, 1, GU1 - GL - 1, {present})"
+
+
+def _static(c):
+    """a staticmethod reached through the instance: the instance is not passed on"""
+    return FuncV(lambda ex, st, a, k, n_: ex.call_contract(st, c, list(a[1:]), k, n_), c.qual)
+
+
+def _upc_inputs(lo_none, hi_none, kw):
+    def mk(ex, st):
+        fields = {"frequency": ex.alloc_arr(st, (m,), FQ, "real", "param:self.frequency", tag="frequency"),
+                  "amplitude": ex.alloc_arr(st, (m,), AMP1, "real", "param:self.amplitude", tag="amplitude"),
+                  "peak_frequency": z3.Real("peak_frequency_on_entry"), "peak_amplitude": z3.Real("peak_amplitude_on_entry"),
+                  "_search_range_in_hz": Tup((old_lo, old_hi)), "_find_peaks_kwargs": DictV({}) if kw == "None" else DictV({"prominence": prom0}),
+                  "meta": DictV({})}
+        st.env["self"] = sym_obj(ex, st, "HvsrCurve", fields, owner="param:self")
+        st.env["search_range_in_hz"] = _range_value(lo_none, hi_none)
+        st.env["find_peaks_kwargs"] = NONE if kw == "None" else DictV({"prominence": prom})
+        st.env["m"] = m
+        return [m >= 1]
+    return mk
+
+
+for lo_none in (True, False):
+    for hi_none in (True, False):
+        for kw in ("None", "dict"):
+            absent, present = _single(kw == "None", "self.peak_frequency", "self.peak_amplitude")
+            c = Contract(qual="hvsrpy.hvsr_curve.HvsrCurve.update_peaks_bounded", params=["self", "search_range_in_hz", "find_peaks_kwargs"],
+                         ghost={"GL": GL, "GU1": GU1, "isnan": lambda x: x == npm.NAN}, axioms=_grid_axioms(lo_none, hi_none),
+                         make_inputs=_upc_inputs(lo_none, hi_none, kw), modifies=["param:self"],
+                         ensures=[f"implies(not {_EARLY}, ({absent}) or ({present}))",
+                                  f"implies(not {_EARLY}, self._search_range_in_hz == search_range_in_hz)",
+                                  f"implies({_EARLY}, self.peak_frequency == old(self.peak_frequency) and self.peak_amplitude == old(self.peak_amplitude))"],
+                         notes="stored peak = highest local maximum strictly inside the index range, NaN when there is none")
+            TASKS.append(FunctionTask(c, registry={"HvsrCurve._find_peak_bounded": _static(fpb_call(lo_none, hi_none))},
+                                      label=f"hvsrpy.hvsr_curve.HvsrCurve.update_peaks_bounded[f_low={'None' if lo_none else 'x'},f_high={'None' if hi_none else 'y'},kwargs={kw}]",
+                                      clauses=["the curve's stored peak is the highest local maximum in the range"]))
+
+# mean_curve_peak: the mean curve is an opaque array of the grid's length (its value is C05's contract); the peak is searched in the stored range
+MC = z3.Const("mean_curve", z3.ArraySort(I, R))
+_AMC = lambda q: f"MCV(GL + {q})"
+_SLMMC = lambda q: f"({_AMC(q)} > {_AMC(q + ' - 1')} and {_AMC(q)} > {_AMC(q + ' + 1')})"
+
+
+def _mcp_inputs(lo_none, hi_none, kw):
+    def mk(ex, st):
+        fields = {"frequency": ex.alloc_arr(st, (m,), FQ, "real", "param:self.frequency", tag="frequency"),
+                  "_search_range_in_hz": _range_value(lo_none, hi_none), "_find_peaks_kwargs": _kwargs_value(kw)}
+        st.env["self"] = sym_obj(ex, st, "HvsrTraditional", fields, owner="param:self")
+        st.env["distribution"] = z3.Int("distribution")
+        st.env["m"] = m
+        return [m >= 1]
+    return mk
+
+
+_MEAN_CURVE = FuncV(lambda ex, st, a, k, n_: ex.alloc_arr(st, (m,), MC, "real", "fresh", tag="mean_curve"), "HvsrTraditional.mean_curve")
+for lo_none in (True, False):
+    for hi_none in (True, False):
+        for kw in ("empty", "dict"):
+            absent, present = _single(kw == "empty", "result[0]", "result[1]", arr=_AMC, slm=_SLMMC)
+            no_peak = f"forall(i, 1, GU1 - GL - 1, not {_SLMMC('i')})"
+            c = Contract(qual="hvsrpy.hvsr_traditional.HvsrTraditional.mean_curve_peak", params=["self", "distribution"],
+                         ghost={"GL": GL, "GU1": GU1, "MCV": lambda i: z3.Select(MC, i)}, axioms=_grid_axioms(lo_none, hi_none),
+                         make_inputs=_mcp_inputs(lo_none, hi_none, kw), modifies=[],
+                         ensures=[present], raises_only_if={"ValueError": no_peak if kw == "empty" else "True"},
+                         notes="peak of the mean curve = highest local maximum of that curve strictly inside the stored range; otherwise ValueError")
+            TASKS.append(FunctionTask(c, registry={"HvsrTraditional.mean_curve": _MEAN_CURVE},
+                                      module_env={"HvsrCurve": ModV("HvsrCurve", {"_find_peak_bounded": fpb_call(lo_none, hi_none)})},
+                                      label=f"hvsrpy.hvsr_traditional.HvsrTraditional.mean_curve_peak[f_low={'None' if lo_none else 'x'},f_high={'None' if hi_none else 'y'},kwargs={kw}]",
+                                      clauses=["the mean-curve peak is the highest local maximum of the mean curve in the stored range"]))
 
 META = dict(
     level="other",
-    explanation="proved: _search_range_to_index_range returns [first index nearest f_low, first index nearest f_high + 1) (None -> 0 / m) for all "
-                "grids and limits; _find_peak_unbounded returns (None, None) iff scipy keeps no candidate, else frequency and amplitude at the same "
-                "candidate index whose amplitude is maximal among the candidates; bounded/cross-check: the object-level behaviour (HvsrCurve, every "
-                "window of HvsrTraditional incl. masks, every azimuth, diffuse field, mean-curve peak, histories of range updates) is evaluated "
-                "natively against an independent local-maximum oracle",
-    trusted_base=["A-REAL", "A-PY", "A-ARGMIN/A-ARGMAX (first index of the extremum)", "A-FIND-PEAKS (scipy.signal.find_peaks)", "PyVC engine + z3/cvc5"],
-    assumptions=["A-REAL", "A-PY", "A-ARGMIN", "A-ARGMAX", "A-FIND-PEAKS", "A-NP-FANCY"],
+    explanation="proved for all grids, curves and limits (four None-patterns of the range; scipy filters absent / empty / present): "
+                "_search_range_to_index_range returns [first index nearest f_low, first index nearest f_high + 1) (None -> 0 / m); "
+                "_find_peak_unbounded returns (None, None) iff scipy keeps no candidate, else frequency and amplitude at the same candidate index whose "
+                "amplitude is maximal among the candidates; _find_peak_bounded (callees by contract) returns the highest local maximum strictly inside "
+                "that index range, amplitude at the same index, absent only if the range holds no strict local maximum; "
+                "HvsrCurve.update_peaks_bounded stores exactly that (NaN when absent; nothing recomputed when range and filters are the stored ones); "
+                "HvsrTraditional.update_peaks_bounded does so for every window (loop invariant over the rows), sets both masks False and NaN for a window "
+                "without a peak and keeps every window accepted when none has one; HvsrTraditional.mean_curve_peak returns the highest local maximum "
+                "of the mean curve in the stored range and raises ValueError only when there is none. With scipy filters present only the "
+                "'frequency and amplitude of one sample strictly inside the range' part is claimed. Bounded/cross-check: every azimuth, diffuse field, "
+                "histories of range updates, against an independent local-maximum oracle",
+    trusted_base=["A-REAL", "A-PY", "A-ARGMIN/A-ARGMAX (first index of the extremum)", "A-FIND-PEAKS (scipy.signal.find_peaks)",
+                  "A-NAN (NaN = distinguished constant; only stored and tested)", "PyVC engine + z3/cvc5"],
+    assumptions=["A-REAL", "A-PY", "A-ARGMIN", "A-ARGMAX", "A-FIND-PEAKS", "A-NP-FANCY", "A-NAN",
+                 "mean_curve is an opaque array of the grid's length in mean_curve_peak (its value: C05)"],
 )
